@@ -868,7 +868,7 @@ def inline_void_lambdas(stmts):
             caps, params, body = lam[1], lam[2], lam[3]
             rest = stmts[i + 1:]
             calls, mentions = _count_calls(rest, name)
-            byval = [c for c in caps if re.fullmatch(r'\w+', c) and c != 'this']
+            byval = [c for j, c in enumerate(caps) if re.fullmatch(r'\w+', c) and c != 'this' and (j == 0 or caps[j - 1] != '&')]
             ok = (calls > 0 and calls == mentions and body[0] == 'block' and not _has_return(body)
                   and not any(_assigned(rest, c) for c in byval) and not _mentions(body, name))
             # auto f = [..](params) { return E; };   every mention of f afterwards being a call with plain arguments:  f(args)  ->  E[params := args]
